@@ -326,5 +326,5 @@ MANIFEST = {
     "text": "exploration: numbers, return value, error/no-error decision, unchanged text and unchanged item identity agree with the model on thousands (quick) / 180 000 (thorough) generated (shape, start, step) cases; the overflow boundary start+(n-1)*step vs 2^32-1 is approached from both sides by construction",
     "note": "trusted: the arithmetic model stated in the property; nothing is asserted about numbers after an error return; groups are non-empty",
 }
-MANIFEST["engine"] += " + atheris (coverage-guided twins of the Hypothesis sub-checks, fuzz/fuzz_hyp.py: 2 jobs x 8 s quick, 8 jobs x 200 s thorough)"
+MANIFEST["engine"] = MANIFEST.get("engine", "hypothesis") + " + atheris (coverage-guided twins of the Hypothesis sub-checks, fuzz/fuzz_hyp.py: 2 jobs x 8 s quick, 8 jobs x 200 s thorough)"
 MANIFEST["technique"] += "; plus coverage-guided fuzzing of the same strategies (atheris/libFuzzer mutates the byte stream Hypothesis decodes into cases, the same oracle runs inside the target, findings are re-judged outside it)"
